@@ -341,6 +341,12 @@ pub fn fxs_or_null(v: &[f64]) -> Value {
   Value::Array(v.iter().map(|x| fx_or_null(*x)).collect())
 }
 
+/// which repairs the code under test contains (read off the source by the generator, Gen/ConfigSites.v, and handed to the harness
+/// in the environment): the shadow construction has to make the same calls in the same order as the code
+pub fn repair_flag(name: &str) -> bool {
+  std::env::var("CFG_REPAIR_FLAGS").map(|v| v.split(',').any(|f| f == name)).unwrap_or(false)
+}
+
 /// The shadow construction.  Returns {"steps": [...], "oracles": {...}, "shadow": setup or null}
 pub fn shadow(cfg: &SPDCConfig) -> Value {
   let mut steps: Vec<Value> = vec![];
@@ -373,6 +379,7 @@ pub fn shadow(cfg: &SPDCConfig) -> Value {
   orc.insert("ls_le_lp".into(), json!(ls <= lp));
   // oracles that depend on (signal, pump, cs0)
   let te = guarded_loc(|| *(signal.theta_external(&cs0) / RAD));
+  let te_finite = matches!(&te, Ok(x) if x.is_finite());
   let mut args = Map::new();
   args.insert("snell_ext".into(), args_snell_ext(&signal, &cs0));
   args.insert("dkz0".into(), args_dkz0(&signal, &pump, &cs0));
@@ -446,6 +453,11 @@ pub fn shadow(cfg: &SPDCConfig) -> Value {
   let mut cs1 = cs0.clone();
   if cfg.crystal.theta_deg.is_auto() {
     if pp == PeriodicPoling::Off {
+      if repair_flag("total_reflection") && !te_finite {
+        // the code refuses a signal whose external angle does not exist before it searches for the crystal angle
+        steps.push(step("external_angle_check", &("err".into(), "total reflection".into(), String::new()), json!({})));
+        return done(steps, orc, snell_inv, waist_pos, Value::Null);
+      }
       let o = outcome_plain(|| cs0.optimum_theta(&signal, &pump));
       let val = match &o.3 { Some(t) => fx_or_null(*(*t / RAD)), None => Value::Null };
       orc.insert("nm_theta".into(), val.clone());
